@@ -529,14 +529,14 @@ Lemma v5_unknown_property_puback i1 i2 rc plen id r :
   exists e, publish_ack_decode (i1 :: i2 :: rc :: plen :: id :: r) = Err e.
 Proof.
   intros Ht Hp. unfold publish_ack_decode, dec_nz16. cbn [dec_u16 bind].
-  destruct (i1 * 256 + i2 =? 0); [eauto|].
-  destruct (publish_ack_reason_ok rc); cbn [ensure bind]; [|eauto].
+  destruct (i1 * 256 + i2 =? 0); cbn [bind]; [eexists; reflexivity|].
+  destruct (publish_ack_reason_ok rc); cbn [ensure bind]; [|eexists; reflexivity].
   unfold ack_props_decode, take_properties, dec_vi. cbn [dec_vi_go].
   replace (plen <? 128) with true by lia. cbn [bind].
-  destruct (len (id :: r) <? 0 + plen mod 128 * 1); [eauto|]. unfold split_to.
+  destruct (len (id :: r) <? 0 + plen mod 128 * 1); cbn [bind]; [eexists; reflexivity|]. unfold split_to.
   replace (N.to_nat (0 + plen mod 128 * 1)) with (S (N.to_nat (plen - 1))) by lia.
-  cbn [firstn bind]. unfold props_of. cbn [length]. Show. rewrite (v5_unknown_property _ _ _ _ _ Ht).
-  cbn [bind]. eauto.
+  cbn [firstn bind]. unfold props_of. cbn [length]. rewrite (v5_unknown_property _ _ _ _ _ Ht).
+  cbn [bind]. eexists; reflexivity.
 Qed.
 
 Lemma v5_unknown_property_puback_stream mi mc npi rl src i1 i2 rc plen id r :
@@ -604,8 +604,8 @@ Qed.
 Lemma v5_unknown_reason_code_connack' flags rc r :
   connect_ack_reason_ok rc = false -> exists e, connect_ack_decode (flags :: rc :: r) = Err e.
 Proof.
-  intros H. unfold connect_ack_decode. destruct (flags <=? 1); cbn [ensure bind]; [|eauto].
-  rewrite H. eauto.
+  intros H. unfold connect_ack_decode. destruct (flags <=? 1); cbn [ensure bind]; [|eexists; reflexivity].
+  rewrite H. eexists; reflexivity.
 Qed.
 
 Lemma status_decode_bad ok s c : In c s -> ok c = false -> status_decode ok s = Err DE_MalformedPacket.
@@ -756,7 +756,7 @@ Lemma v5_inner_len_exceeds_rl_puback i1 i2 rc r1 n r2 :
   publish_ack_decode (i1 :: i2 :: rc :: r1) = Err DE_InvalidLength.
 Proof.
   intros Hid Hrc E H. unfold publish_ack_decode, dec_nz16. cbn [dec_u16 bind].
-  replace (i1 * 256 + i2 =? 0) with false by lia. rewrite Hrc. cbn [ensure bind].
+  replace (i1 * 256 + i2 =? 0) with false by lia. cbn [bind]. rewrite Hrc. cbn [ensure bind].
   destruct r1 as [|x r1]; [discriminate|].
   unfold ack_props_decode. rewrite (v5_inner_len_exceeds_rl _ _ _ E H). reflexivity.
 Qed.
